@@ -15,7 +15,7 @@ ASSUMPTIONS = [
     "permitted normalisation: a parameter without default acquires the zero value of its scalar type, or None (I3 class)",
     "word_wrap=False (wrapping is C18); emit_call, decorators, bases outside the claim",
 ]
-QUICK = ["p0_kwargs", "p1_ret_code_scalar", "p1_optint_d", "p1_optbool_f", "p1_optfloat_z", "p1_unionnum_d", "p2_d_then_optd", "p1_int", "p1_int_d", "p1_untyped_d", "p1_str_s", "p1_bool_b", "p1_float", "p1_optint_none", "p1_literal", "p1_list",
+QUICK = ["p1_ret_none", "p0_kwargs", "p1_ret_code_scalar", "p1_optint_d", "p1_optbool_f", "p1_optfloat_z", "p1_unionnum_d", "p2_d_then_optd", "p1_int", "p1_int_d", "p1_untyped_d", "p1_str_s", "p1_bool_b", "p1_float", "p1_optint_none", "p1_literal", "p1_list",
          "p2_d_then_plain", "p2_plain_then_d", "p1_ret", "p1_ret_d", "ret_only", "p1_kwargs", "p0", "p1_code", "p3_mixed"]
 
 
